@@ -85,6 +85,8 @@ def eval_case(flex, workdir, prog, spec_text, flex_opts, inputs, fuel=30000, che
         return res
     res['lastdfa'] = t.get('lastdfa')
     res['modes'] = sorted(t['modes'])
+    for bad in tables.type_misfits(t)[:2]:
+        res['problems'].append(('table-value-does-not-fit-its-type', bad))
     nsc = 1 + len(prog.get('scs', []))
     run_scs = run_scs or [1]
     # real scanner
